@@ -4,25 +4,29 @@ import SakuraVerif.Model.Smf
 namespace Sakura.Driver
 open Sakura Sakura.Wire
 
-/-- declarative PlayFrom law (independent of the loop/accumulator formulation of the model) -/
+/-- declarative PlayFrom law (independent of the loop/accumulator formulation of the model): in time order (issue order within a
+    tick), per channel the latest controller values and program written before the point, then the kept events -/
 def pfDropped (p : Int) (e : Event) : Bool :=
-  decide (e.time - p < 0) && (e.kind == .voice || (e.kind == .cc && decide (0 ≤ e.v1 ∧ e.v1 < 128)))
+  decide (e.time - p < 0) && decide (0 ≤ e.ch ∧ e.ch < 16) && (e.kind == .voice || (e.kind == .cc && decide (0 ≤ e.v1 ∧ e.v1 < 128)))
 
-def pfLaw (p : Int) (es : List Event) : List Event :=
+def pfLaw (p : Int) (es0 : List Event) : List Event :=
+  let es := es0.mergeSort (fun a b => decide (a.time ≤ b.time))
   let dropped := es.filter (pfDropped p)
-  let ch := match dropped.getLast? with | some e => e.ch | none => 0
-  let ccs := (List.range 128).filterMap (fun (no : Nat) =>
-    match (dropped.filter (fun e => e.kind == .cc && e.v1 == (no : Int))).getLast? with
-    | some e => if e.v2 < 0 then none else some (⟨.cc, 0, ch, (no : Int), e.v2, 0, []⟩ : Event)
-    | none => none)
-  let voice := match (dropped.filter (fun e => e.kind == .voice)).getLast? with
-    | some e => if e.v1 ≥ 0 then [(⟨.voice, 0, ch, e.v1, 0, 0, []⟩ : Event)] else []
-    | none => []
+  let perCh := (List.range 16).map (fun (c : Nat) =>
+    let mine := dropped.filter (fun e => e.ch == (c : Int))
+    let ccs := (List.range 128).filterMap (fun (no : Nat) =>
+      match (mine.filter (fun e => e.kind == .cc && e.v1 == (no : Int))).getLast? with
+      | some e => if e.v2 < 0 then none else some (⟨.cc, 0, (c : Int), (no : Int), e.v2, 0, []⟩ : Event)
+      | none => none)
+    let voice := match (mine.filter (fun e => e.kind == .voice)).getLast? with
+      | some e => if e.v1 ≥ 0 then [(⟨.voice, 0, (c : Int), e.v1, 0, 0, []⟩ : Event)] else []
+      | none => []
+    ccs ++ voice)
   let kept := es.filterMap (fun e =>
     match e.kind with
     | .metaEv | .sysex => some { e with time := if e.time - p < 0 then 0 else e.time - p }
     | .noteOn | .voice | .cc => if e.time - p < 0 then none else some { e with time := e.time - p }
     | _ => none)
-  ccs ++ voice ++ kept
+  perCh.flatten ++ kept
 
 end Sakura.Driver
